@@ -53,7 +53,10 @@ async def run_world(net, plan, which, cut=None):
     if plan.get("bases"):
         # different users with different base directories working on the *same* virtual paths
         n = len(plan["scripts"])
-        users = [aioftp.User(f"u{i}", None, base_path=f"/srv/u{i}") for i in range(n)]
+        users = [aioftp.User(f"u{i}", None, base_path=f"/srv/u{i}",
+                             **({"permissions": [aioftp.Permission("/"), aioftp.Permission("/dir", writable=False),
+                                                 aioftp.Permission("/f.bin", readable=False)]} if plan.get("perms") and i % 2 else {}))
+                 for i in range(n)]
         tree = {"/srv": "<DIR>"}
         for i in range(n):
             tree[f"/srv/u{i}"] = "<DIR>"
@@ -340,9 +343,10 @@ def gen_cases(tier, seed):
                           "lat": [rng.choice([0.0005, 0.001]) for _ in range(4)], "mss": [1460, 536, 1460],
                           "backend_delay": [0.0007, 0.0011]})
     # an account limited to two connections: a session that mistypes the password and leaves, then two real ones
-    for j in range(4 if tier == "quick" else 40):
+    for j in range(6 if tier == "quick" else 60):
         scripts = [["login_bad_pw", "login_pw", "login_pw"], ["login_bad_pw", "login_bad_pw", "login_pw", "login_pw"],
-                   ["login_pw", "login_bad_pw", "login_pw"], ["login_bad_pw", "walk", "login_pw", "login_pw"]][j % 4]
+                   ["login_pw", "login_bad_pw", "login_pw"], ["login_bad_pw", "walk", "login_pw", "login_pw"],
+                   ["login_retry", "login_pw", "login_pw"], ["login_retry", "login_retry", "login_pw"]][j % 6]
         k = len(scripts)
         plans.append({"seed": seed * 271 + j, "limits": 2, "scripts": scripts, "prefixes": [f"/s{x}" for x in range(k)],
                       "users": ["alice" if sc != "walk" else "anon" for sc in scripts],
@@ -361,7 +365,7 @@ def gen_cases(tier, seed):
         k = 2 if j % 4 else 3
         same = j % 3 == 0
         first = rng.choice(base_ok)
-        plans.append({"seed": seed * 4567 + j, "bases": True, "scripts": [first if same else rng.choice(base_ok) for _ in range(k)],
+        plans.append({"seed": seed * 4567 + j, "bases": True, "perms": j % 2 == 1, "scripts": [first if same else rng.choice(base_ok) for _ in range(k)],
                       "prefixes": [""] * k, "users": ["u"] * k, "offsets": [round(rng.random() * 0.006, 4) for _ in range(k)],
                       "lat": [rng.choice([0.0005, 0.001, 0.002]) for _ in range(4)], "mss": [1460, 536, 64],
                       "backend_delay": rng.choice([None, [0, 0.0006]])})
